@@ -14,9 +14,11 @@ flow-insensitive-in-names, structure-sensitive analysis (back end `dataflow`);
 each obligation is one (function, site).
 """
 import ast
+import hashlib
 
 from pyvc import loader
 from pyvc.flow import dotted, ground_obligation
+from contracts import C06_flow as FL
 
 DT = "sharepoint2text/parsing/extractors/data_types.py"
 
@@ -28,7 +30,9 @@ MUTATORS = {"append", "extend", "insert", "pop", "remove", "clear", "sort", "rev
 BUFFER_READ_ONLY = {"seek", "tell", "read", "getvalue", "readline", "readlines", "read1", "readinto", "seekable", "readable", "closed", "getbuffer"}
 NONDET_CALLS = ("time.", "random.", "secrets.", "uuid.", "os.urandom", "os.getpid", "os.getppid", "os.environ", "os.times", "os.getlogin",
                 "datetime.datetime.now", "datetime.now", "datetime.datetime.today", "datetime.date.today", "datetime.datetime.utcnow",
-                "email.utils.make_msgid", "email.utils.formatdate", "email.utils.localtime", "tempfile.mktemp", "tempfile.gettempprefix",
+                "email.utils.make_msgid", "email.utils.formatdate", "email.utils.localtime", "tempfile.",
+                "os.getcwd", "os.listdir", "os.scandir", "os.walk", "glob.glob", "glob.iglob", "os.getuid", "os.getgid", "os.stat", "os.path.getmtime",
+                "os.path.getctime", "os.path.getatime", "os.path.expanduser", "os.cpu_count", "sys.getrefcount", "gc.", "weakref.",
                 "socket.gethostname", "socket.getfqdn", "platform.", "getpass.getuser", "threading.get_ident", "threading.current_thread")
 
 
@@ -60,14 +64,107 @@ def own_nodes(fnode):
 
 
 # ------------------------------------------------------------------- order --
-def unordered_names(mod, fnode):
+SET_ANNOTATIONS = ("set", "Set", "frozenset", "FrozenSet", "AbstractSet", "MutableSet")
+
+
+def set_annotation(ann):
+    """True when a type annotation denotes a set type (set[str], Set[...], frozenset, Optional[set[...]], "set[str]")."""
+    if ann is None:
+        return False
+    if isinstance(ann, ast.Constant) and isinstance(ann.value, str):
+        try:
+            ann = ast.parse(ann.value, mode="eval").body
+        except SyntaxError:
+            return False
+    if isinstance(ann, ast.Subscript):
+        head = dotted(ann.value).split(".")[-1]
+        if head in ("Optional", "Final", "Annotated", "ClassVar"):
+            inner = ann.slice.elts[0] if isinstance(ann.slice, ast.Tuple) else ann.slice
+            return set_annotation(inner)
+        return head in SET_ANNOTATIONS
+    if isinstance(ann, ast.BinOp) and isinstance(ann.op, ast.BitOr):      # set[str] | None
+        return set_annotation(ann.left) or set_annotation(ann.right)
+    return dotted(ann).split(".")[-1] in SET_ANNOTATIONS
+
+
+class Summaries:
+    """Package-wide facts used by the order analysis: functions whose result is a set (by annotation or because every
+    `return` returns a set-valued expression) and attribute names that hold sets (annotated / assigned a set)."""
+
+    def __init__(self, mods):
+        self.mods = mods
+        self.set_fns = {}        # (rel, simple name) -> True
+        self.set_attrs = {}      # rel -> {attr}
+        for rel, m in mods.items():
+            attrs = set()
+            for n in ast.walk(m.tree):
+                if isinstance(n, ast.AnnAssign) and set_annotation(n.annotation):
+                    if isinstance(n.target, ast.Attribute):
+                        attrs.add(n.target.attr)
+                    elif isinstance(n.target, ast.Name) and any(n in c.body for c in m.classes.values()):
+                        attrs.add(n.target.id)
+            self.set_attrs[rel] = attrs
+        for _ in range(3):
+            changed = False
+            for rel, m in mods.items():
+                for q, fnode in m.functions.items():
+                    if (rel, fnode.name) in self.set_fns or isinstance(fnode, ast.Lambda):
+                        continue
+                    is_set = set_annotation(fnode.returns)
+                    if not is_set:
+                        unames, is_u = unordered_names(m, fnode, self)
+                        known = {k: True for k in unames}
+                        rets = [n for n in own_nodes(fnode) if isinstance(n, ast.Return) and n.value is not None]
+                        is_set = bool(rets) and all(is_u(r.value, known) for r in rets)
+                    if is_set:
+                        self.set_fns[(rel, fnode.name)] = True
+                        changed = True
+                # attributes assigned a set value anywhere in the module
+                for q, fnode in m.functions.items():
+                    unames, is_u = unordered_names(m, fnode, self)
+                    known = {k: True for k in unames}
+                    for n in own_nodes(fnode):
+                        if isinstance(n, ast.Assign) and len(n.targets) == 1 and isinstance(n.targets[0], ast.Attribute) and is_u(n.value, known):
+                            if n.targets[0].attr not in self.set_attrs[rel]:
+                                self.set_attrs[rel].add(n.targets[0].attr)
+                                changed = True
+            if not changed:
+                break
+
+    def call_returns_set(self, mod, call):
+        f = call.func
+        if isinstance(f, ast.Name):
+            if (mod.rel, f.id) in self.set_fns and f.id in mod.functions:
+                return True
+            origin = mod.imports.get(f.id, "")
+            if origin.startswith("sharepoint2text."):
+                rel = origin.rsplit(".", 1)[0].replace(".", "/") + ".py"
+                return (rel, origin.rsplit(".", 1)[1]) in self.set_fns
+        elif isinstance(f, ast.Attribute) and isinstance(f.value, ast.Name) and f.value.id in ("self", "cls"):
+            return (mod.rel, f.attr) in self.set_fns
+        return False
+
+
+def unordered_names(mod, fnode, summ=None):
     """Names that only ever hold set-typed values in this function (or module)."""
     names = {}
+    if not isinstance(fnode, ast.Lambda):
+        for a in fnode.args.posonlyargs + fnode.args.args + fnode.args.kwonlyargs:
+            if set_annotation(a.annotation):
+                names[a.arg] = True
     def is_u(e, known):
         if isinstance(e, (ast.Set, ast.SetComp)):
             return True
         if isinstance(e, ast.Call) and isinstance(e.func, ast.Name) and e.func.id in UNORDERED_CTORS:
             return True
+        if summ is not None and isinstance(e, ast.Call) and summ.call_returns_set(mod, e):
+            return True
+        if summ is not None and isinstance(e, ast.Attribute) and e.attr in summ.set_attrs.get(mod.rel, ()):
+            return True
+        if isinstance(e, ast.Call) and isinstance(e.func, ast.Attribute) and e.func.attr == "fromkeys" and e.args and is_u(e.args[0], known):
+            return True      # dict.fromkeys(<set>): a dict in set-iteration order
+        if isinstance(e, ast.IfExp):
+            return is_u(e.body, known) or is_u(e.orelse, known)
         if isinstance(e, ast.BinOp) and isinstance(e.op, (ast.BitOr, ast.BitAnd, ast.Sub, ast.BitXor)):
             return is_u(e.left, known) or is_u(e.right, known)
         if isinstance(e, ast.Name):
@@ -82,17 +179,80 @@ def unordered_names(mod, fnode):
                 tgt, val = n.targets[0].id, n.value
             elif isinstance(n, ast.AnnAssign) and isinstance(n.target, ast.Name) and n.value is not None:
                 tgt, val = n.target.id, n.value
+                if set_annotation(n.annotation):
+                    val = ast.Set(elts=[])
             if tgt is not None:
                 u = is_u(val, names)
                 names[tgt] = u if tgt not in names else (names[tgt] and u) or (u and names[tgt])
     return {k for k, v in names.items() if v}, is_u
 
 
-def order_sites(mod, q, fnode):
-    """Order-exposing uses of unordered values: [(node, description)]."""
-    unames, is_u = unordered_names(mod, fnode)
+KEYED_CONSUMERS = {"sorted", "min", "max"}
+# functions that are certainly not injective on their domain (ties exist for distinct elements)
+NON_INJECTIVE_KEYS = {"str.lower", "str.upper", "str.casefold", "str.strip", "str.lstrip", "str.rstrip", "str.title", "str.capitalize",
+                      "str.swapcase", "len", "type", "bool", "int", "float", "abs", "round", "hash", "id"}
+NON_INJECTIVE_METHODS = {"lower", "upper", "casefold", "strip", "lstrip", "rstrip", "title", "capitalize", "swapcase", "split", "count",
+                         "startswith", "endswith", "find", "isdigit", "isupper", "islower", "get"}
+
+
+def key_injective(key):
+    """(status, text) for the `key=` of sorted/min/max applied to an unordered collection.
+    'yes': equal keys imply equal elements (no key, identity, or a tuple with the element itself as a component) -> the
+    result does not depend on the iteration order; 'no': a function with ties between distinct elements (the stable sort /
+    first-extremum rule then exposes the set's iteration order); 'unknown': shape not recognised."""
+    if key is None or (isinstance(key, ast.Constant) and key.value is None):
+        return "yes", "no key (total order of the elements)"
+    src = ast.unparse(key)
+    if isinstance(key, ast.Lambda) and len(key.args.args) == 1 and not key.args.vararg and not key.args.kwarg:
+        a = key.args.args[0].arg
+        b = key.body
+        if isinstance(b, ast.Name) and b.id == a:
+            return "yes", "identity key"
+        if isinstance(b, ast.Tuple) and any(isinstance(e, ast.Name) and e.id == a for e in b.elts):
+            return "yes", "key tuple contains the element itself (ties broken by the element)"
+        if isinstance(b, ast.Call):
+            d = dotted(b.func)
+            if d in NON_INJECTIVE_KEYS or (isinstance(b.func, ast.Attribute) and b.func.attr in NON_INJECTIVE_METHODS):
+                return "no", f"key {src} maps distinct elements to equal keys"
+        if isinstance(b, (ast.Constant,)):
+            return "no", f"constant key {src}"
+        if isinstance(b, ast.Subscript) and isinstance(b.value, ast.Name) and b.value.id == a:
+            return "no", f"key {src} looks at one component of the element only"
+        return "unknown", f"key {src} not recognised as injective"
+    d = dotted(key)
+    if d in NON_INJECTIVE_KEYS or d.split(".")[-1] in NON_INJECTIVE_METHODS:
+        return "no", f"key {src} maps distinct elements to equal keys"
+    return "unknown", f"key {src} not recognised as injective"
+
+
+def order_sites(mod, q, fnode, summ=None, keyed_out=None):
+    """Order-exposing uses of unordered values: [(node, description)].
+    `keyed_out` (list) receives one record per sorted/min/max over an unordered value: (node, status, text)."""
+    unames, is_u = unordered_names(mod, fnode, summ)
     known = {k: True for k in unames}
     out = []
+
+    def derived(e):
+        """e is an unordered value or a sequence in the iteration order of one."""
+        if is_u(e, known):
+            return True
+        if isinstance(e, (ast.GeneratorExp, ast.ListComp)):
+            return any(derived(g.iter) for g in e.generators)
+        if isinstance(e, ast.Call) and isinstance(e.func, ast.Name) and e.func.id in ORDER_EXPOSING_CONSUMERS and e.args:
+            return derived(e.args[0])
+        if isinstance(e, ast.Call) and isinstance(e.func, ast.Attribute) and e.func.attr in ("keys", "values", "items") and not e.args:
+            return derived(e.func.value)
+        return False
+
+    unsafe_keyed = set()
+    for n in own_nodes(fnode):
+        if isinstance(n, ast.Call) and isinstance(n.func, ast.Name) and n.func.id in KEYED_CONSUMERS and n.args and derived(n.args[0]):
+            key = next((k.value for k in n.keywords if k.arg == "key"), None)
+            st, txt = key_injective(key)
+            if keyed_out is not None:
+                keyed_out.append((n, st, f"{n.func.id}(<set>{', key=' + ast.unparse(key) if key is not None else ''}): {txt}"))
+            if st != "yes":
+                unsafe_keyed.add(id(n))
     for n in own_nodes(fnode):
         if isinstance(n, ast.Call):
             f = n.func
@@ -114,10 +274,13 @@ def order_sites(mod, q, fnode):
                 out.append((n, "for-loop over <set> with order-dependent body"))
         elif isinstance(n, ast.Starred) and is_u(n.value, known):
             out.append((n, "*<set>"))
+        elif isinstance(n, (ast.Assign,)) and isinstance(n.value, ast.Name) is False and isinstance(n.targets[0], (ast.Tuple, ast.List)) and is_u(n.value, known):
+            out.append((n, "tuple unpacking of <set>"))
     # comprehension directly inside an order-insensitive consumer is fine: sorted(x for x in s), any(...), set(...)
+    # -- unless the consumer is sorted/min/max with a key that has ties (unsafe_keyed)
     safe = set()
     for n in own_nodes(fnode):
-        if isinstance(n, ast.Call) and isinstance(n.func, ast.Name) and n.func.id in ORDER_SAFE_CONSUMERS:
+        if isinstance(n, ast.Call) and isinstance(n.func, ast.Name) and n.func.id in ORDER_SAFE_CONSUMERS and id(n) not in unsafe_keyed:
             for a in n.args:
                 if isinstance(a, (ast.GeneratorExp, ast.ListComp)):
                     safe.add(id(a))
@@ -228,10 +391,16 @@ def frame_sites(fnode):
     return out
 
 
+# methods of result classes that are NOT observers: constructors and the documented mutators used while a result is being built
+CONSTRUCTION_METHODS = {"__init__", "__post_init__", "__new__", "from_json", "from_dict", "populate_from_path", "__setattr__", "__setitem__", "__delitem__",
+                        "__delattr__"}
+
+
 def is_observer(q):
+    """Every method of a result class is an observer (accessors, iterators, properties, to_json / to_dict, __eq__, ...), except the
+    construction-time methods listed above."""
     name = q.split(".")[-1]
-    return ("." in q and "<locals>" not in q and
-            (name.startswith(("get_", "iterate_", "to_json", "is_")) or name in ("text_combined", "base_text", "__len__", "__iter__", "__str__", "__repr__")))
+    return "." in q and "<locals>" not in q and name not in CONSTRUCTION_METHODS
 
 
 def policy(repo, tier):
@@ -240,22 +409,51 @@ def policy(repo, tier):
     mods = {f: loader.module(f, repo) for f in files if "/sharepoint_io/" not in f}
     n_fun = 0
     # ---- order
+    summ = Summaries(mods)
     for rel, m in mods.items():
-        per_fn = {}
         for q, fnode in functions_of(m):
-            sites = order_sites(m, q, fnode)
+            keyed = []
+            sites = order_sites(m, q, fnode, summ, keyed)
             n_fun += 1
             for k, (node, desc) in enumerate(sites):
-                obls.append(ground_obligation(f"C06/{rel.split('/')[-1]}::{q}/order#set-iteration-{k}", False,
-                                              f"{rel}:{node.lineno} {desc}: the resulting order depends on the hash seed", rel))
-        # module level
-        class _M:  # pseudo function for module-level statements
-            pass
+                o = ground_obligation(f"C06/{rel.split('/')[-1]}::{q}/order#set-iteration-{k}", False,
+                                      f"{rel}:{node.lineno} {desc}: the resulting order depends on the hash seed", rel)
+                o["replay_hint"] = {"kind": "order", "file": rel, "function": q, "line": node.lineno}
+                obls.append(o)
+            # sorted / min / max over a set: independent of the iteration order only when equal keys imply equal elements
+            for k, (node, st, txt) in enumerate(keyed):
+                o = ground_obligation(f"C06/{rel.split('/')[-1]}::{q}/order#keyed-consumer-of-set-is-tie-free-{k}", st == "yes",
+                                      f"{rel}:{node.lineno} {txt}" + ("" if st == "yes" else ": elements with equal keys keep the set's iteration "
+                                                                      "order (stable sort / first extremum), which depends on the hash seed"),
+                                      rel, definite=(st == "no"))
+                o["replay_hint"] = {"kind": "order", "file": rel, "function": q, "line": node.lineno,
+                                    "key": ast.unparse(next((kw.value for kw in node.keywords if kw.arg == "key"), ast.Constant(None)))}
+                obls.append(o)
+    # the serializer lists a set in iteration order (`isinstance(value, (list, tuple, set))`): no result field may hold one
+    dtm = mods[DT]
+    set_fields = []
+    n_fields = 0
+    for cq, cnode in dtm.classes.items():
+        for st_ in cnode.body:
+            if isinstance(st_, ast.AnnAssign) and isinstance(st_.target, ast.Name):
+                n_fields += 1
+                if set_annotation(st_.annotation) or (isinstance(st_.value, ast.Call) and any(
+                        k.arg == "default_factory" and dotted(k.value) in UNORDERED_CTORS for k in st_.value.keywords)):
+                    set_fields.append(f"{cq}.{st_.target.id} (line {st_.lineno})")
+    obls.append(ground_obligation("C06/data_types.py/order#no-set-typed-result-field", not set_fields and n_fields > 100,
+                                  "; ".join(set_fields) or f"{n_fields} annotated fields of result classes, none of a set type", DT))
     obls.append(ground_obligation("C06/package/order#all-functions-scanned", n_fun > 400, f"{n_fun} functions scanned for order-exposing set iteration", "package", backend="dataflow"))
     # ---- frames: observers of result objects
     dt = mods[DT]
     n_obs = 0
-    for q, fnode in functions_of(dt):
+    methods = []
+    for cq, cnode in dt.classes.items():
+        for st_ in cnode.body:
+            if isinstance(st_, (ast.FunctionDef, ast.AsyncFunctionDef)):
+                if any(isinstance(d, ast.Attribute) and d.attr in ("setter", "deleter") for d in st_.decorator_list):
+                    continue        # property setter: a mutator by declaration, not an observer
+                methods.append((f"{cq}.{st_.name}", st_))
+    for q, fnode in methods:
         if not is_observer(q):
             continue
         n_obs += 1
@@ -283,7 +481,18 @@ def policy(repo, tier):
                         if isinstance(t, (ast.Attribute, ast.Subscript)) and isinstance(t.value, ast.Name) and t.value.id == "file_like":
                             bad.append(f"line {n.lineno}: store into file_like")
             obls.append(ground_obligation(f"C06/{rel.split('/')[-1]}::{q}/frame#input-buffer-only-read", not bad, "; ".join(bad), rel))
+    # ---- streams owned by a result are read from offset 0
+    so, n_stream = FL.stream_obligations(mods)
+    obls.extend(so)
+    obls.append(ground_obligation("C06/package/stream#result-stream-readers-scanned", n_stream >= 1,
+                                  f"{n_stream} function(s) read a stream they do not own", "package"))
+    # ---- process-persistent state is a key-determined memo
+    st, n_state = FL.state_obligations(mods)
+    obls.extend(st)
+    obls.append(ground_obligation("C06/package/state#persistent-state-writers-scanned", n_state >= 3,
+                                  f"{n_state} writes of module-level state / decorator caches", "package"))
     # ---- nondeterministic primitives
+    index = FL.function_index(mods)
     for rel, m in mods.items():
         for q, fnode in functions_of(m):
             k = 0
@@ -295,9 +504,29 @@ def policy(repo, tier):
                 if not is_nd:
                     continue
                 ok, why = nondet_contained(m, fnode, n, c or n.func.id)
-                obls.append(ground_obligation(f"C06/{rel.split('/')[-1]}::{q}/nondet#{(c or n.func.id).replace('.', '_')}-{k}", ok,
-                                              f"{rel}:{n.lineno} {why}", rel))
+                if not ok and not (isinstance(n.func, ast.Name) and n.func.id in ("id", "hash")) and not c.startswith("secrets."):
+                    # not contained at the call itself: follow the value through the package (interprocedural taint)
+                    ok, why2, _v = FL.taint_verdict(mods, index, rel, q, fnode, n)
+                    why = f"{c}: {why2}"
+                o = ground_obligation(f"C06/{rel.split('/')[-1]}::{q}/nondet#{(c or n.func.id).replace('.', '_')}-{k}", ok,
+                                      f"{rel}:{n.lineno} {why}", rel)
+                o["replay_hint"] = {"kind": "nondet", "file": rel, "function": q, "line": n.lineno, "source": c or n.func.id}
+                obls.append(o)
                 k += 1
+    # functions that carry an order / stream / state / nondet obligation of their own: effect / qualifier obligations, listed per family
+    # (as for the observers above: one summary entry each -- mutation canaries are only meaningful for the functional contract of
+    # _bytesio_to_base64, which is listed by the engine itself)
+    per_family = {}
+    for o in obls:
+        h = o.get("replay_hint") or {}
+        if h.get("file") in mods and h.get("function") in mods[h["file"]].functions:
+            fam = o["id"].rsplit("/", 1)[-1].split("#")[0]
+            per_family.setdefault(fam, {}).setdefault((h["file"], h["function"]), 0)
+            per_family[fam][(h["file"], h["function"])] += 1
+    for fam, d in sorted(per_family.items()):
+        digest = hashlib.sha256("".join(mods[rel].fn_info(q)["segment_sha256"] for (rel, q) in sorted(d)).encode()).hexdigest()
+        fns.append({"function": f"{sorted(d)[0][0]}::<{len(d)} functions with {fam} obligations: " + ", ".join(q for (_r, q) in sorted(d))[:400] + ">",
+                    "lines": [1, 1], "file_sha256": digest, "segment_sha256": digest, "obligations": sum(d.values())})
     return {"obligations": obls, "functions": fns}
 
 
@@ -396,23 +625,48 @@ def validate_assumed_purity(repo, tier):
     if "mismatches" not in res:
         return {"obligations": [], "undecided": [{"obligation": oid, "why": "native validation did not run: " + str(res.get("note", ""))[:200]}]}
     mm = res["mismatches"]
-    o = ground_obligation(oid, not mm, "; ".join(f"{m[0]}: {m[1]} {m[2]}" for m in mm[:6]) or f"{res.get('fixtures')} fixtures agree",
-                          "package", kind="assumption-validation", backend="native-replay(bounded: repository fixtures, 2 processes)")
+    o = ground_obligation(oid, not mm, "; ".join(f"{m[0]}: {m[1]} {m[2]}" for m in mm[:6]) or f"{res.get('fixtures')} documents agree",
+                          "package", kind="assumption-validation", backend="native-replay(bounded: repository fixtures + synthetic documents, 2 processes)")
+    o["bounded"] = True      # DESIGN 2.8: a bounded stand-in, never counted as discharged
+    o["bound"] = "repository fixtures + replay/C06.py::synth_corpus, 2 fresh processes (PYTHONHASHSEED 1/2, opposite corpus order)"
     return {"obligations": [o]}
 
 
 EXTRA = [policy, validate_assumed_purity]
-BOUNDED = ["assumed-contract-validation#fixtures-identical-across-fresh-processes: all supported fixtures of the repository, two fresh processes "
-           "(PYTHONHASHSEED 1 and 2), each observer called twice -- a bounded validation of the purity assumption, not counted as a proof of it"]
+BOUNDED = ["assumed-contract-validation#fixtures-identical-across-fresh-processes: all supported fixtures of the repository plus the synthetic "
+           "documents of replay/C06.py::synth_corpus (style names colliding under case/length/whitespace keys; image twins differing only in "
+           "their dimension bytes), two fresh processes (PYTHONHASHSEED 1 and 2, opposite corpus order), each document extracted twice with a "
+           "path and twice without, every observer called and every handed-out stream read between two to_json() calls -- a bounded "
+           "validation of the purity assumption, not counted as a proof of it"]
 
 
 def contracts(reg):
-    return []
+    """The one function on which the frame of to_json() rests -- `_bytesio_to_base64` -- is verified deductively (real body, SMT):
+    for every payload and every cursor position it returns the base64 text of the WHOLE payload and leaves the cursor where it
+    was.  Contract, value model (`PV` payload + ghost cursor) and executor are those of the C05 pack (contracts/C05.py), the
+    obligations are C06's own (`C06/serialization.py::_bytesio_to_base64/returns`, `/ensures#stream-position-restored`)."""
+    from contracts import C05
+    return [c for c in C05.contracts(reg) if c.target.endswith("::_bytesio_to_base64") or c.assumed]
+
+
+def _executor():
+    from contracts.C05 import EXECUTOR as E
+    return E
+
+
+EXECUTOR = _executor()
 
 
 TRUSTED = ["third-party parsers are deterministic functions of their input bytes", "PY-HASHSEED: dict iteration = insertion order; set iteration order arbitrary per process"]
 ASSUMED_MODELS = []
-ASSUMPTIONS = ["fresh-process / hash-seed equality follows from the three obligation families only under the trusted-base assumptions; it is never executed by this check",
-               "aliasing is tracked by names rooted at `self` (constructor calls and copies are fresh)", "effect/qualifier obligations are decided by AST analysis (back end 'dataflow'), not SMT"]
+ASSUMPTIONS = ["fresh-process / hash-seed equality follows from the obligation families only under the trusted-base assumptions; as an executed fact it is only validated on the bounded corpus",
+               "aliasing is tracked by names rooted at `self` (constructor calls and copies are fresh)", "effect/qualifier obligations are decided by AST analysis (back end 'dataflow'), not SMT "
+               "(exception: serialization._bytesio_to_base64 is verified deductively with the C05 value model)",
+               "order: a name is unordered when every assignment to it is set-valued; set-returning functions / set-typed parameters and attributes are summarised per module; "
+               "sorted/min/max over a set is order-free only with a key whose equality implies element equality",
+               "state: process-persistent state = module-level names written inside functions, `global` rebinding, functools cache decorators; closures and "
+               "attributes of long-lived third-party objects are not tracked",
+               "nondet taint: data dependence only (no control dependence, no exceptions carrying a tainted message); library calls propagate taint from arguments/receiver to "
+               "result; names of temporary files are consumed by open()/os.path.exists()/extractall() without tainting what is read"]
 
 REPLAY_UNKNOWN = True    # undecided / out-of-subset items are searched natively (replay) before being reported UNDECIDED
